@@ -348,8 +348,20 @@ def gen_plugin_case(rng, ntests):
         g.ops.append("report checking")
         if rng.random() < 0.3:
             g.ops.append("report enabled")
+        if rng.random() < 0.25:
+            g.ops.append("plugin final %d" % final_arg(g, rng))
+    if rng.random() < 0.5:       # something allocated after the last test, still before the final report
+        g.alloc() if rng.random() < 0.6 else g.galloc()
+    g.ops.append("plugin final %d" % final_arg(g, rng))
+    g.ops.append("plugin final 0")
     g.ops.append("report all")
     return g.ops
+
+
+def final_arg(g, rng):
+    """the announced number of leaks: often exactly the number of blocks outstanding for the enabled period, else near it"""
+    n = len([l for l in g.tracked() if g.blocks[l]["period"] != "disabled"])
+    return n if rng.random() < 0.4 else max(0, n + rng.choice([-2, -1, 1, 3]))
 
 
 def gen_malformed(rng, n):
